@@ -423,7 +423,7 @@ class Interp:
             return PyCallable(_ctr)
         if module == "collections" and attr == "deque":
             return PyCallable(lambda it, a, k: list(it.iterate(a[0])) if a else [])
-        if module == "operator" and attr in ("add", "sub", "mul", "truediv", "neg", "itemgetter", "attrgetter", "eq", "ne", "lt", "le", "gt", "ge"):
+        if module == "operator" and attr in ("add", "sub", "mul", "truediv", "neg", "itemgetter", "attrgetter", "methodcaller", "eq", "ne", "lt", "le", "gt", "ge", "not_", "truth", "is_", "is_not", "contains", "getitem", "floordiv", "mod", "abs", "pos"):
             return Builtin("operator." + attr)
         if module == "itertools" and attr == "count":
             return PyCallable(lambda it, a, k: range(a[0] if a else 0, (a[0] if a else 0) + (1 << 16), a[1] if len(a) > 1 else 1))
@@ -1687,6 +1687,12 @@ class Interp:
         """Items of v one at a time: a generator expression is advanced only as far as it is consumed."""
         if isinstance(v, LazyGen):
             return v.pull()
+        if isinstance(v, IterObj):
+            def _rest(o=v):
+                while o.pos < len(o.items):
+                    o.pos += 1
+                    yield o.items[o.pos - 1]
+            return _rest()
         return iter(self.iterate(v))
 
     def e_SetComp(self, n, env):
@@ -1763,7 +1769,11 @@ class Interp:
     # ------------------------------------------------------------------ builtins
     def iterate(self, v):
         if isinstance(v, LazyGen):
-            return list(v.pull())
+            import itertools as _it
+            out = list(_it.islice(v.pull(), 200001))
+            if len(out) > 200000:
+                raise Undecided("an unbounded iterator is materialised")
+            return out
         if isinstance(v, IterObj):
             rest = v.items[v.pos:]
             v.pos = len(v.items)
@@ -1831,7 +1841,12 @@ class Interp:
         if name == "range":
             return range(*[_idx(x) for x in a])
         if name == "zip":
-            return list(zip(*[self.iterate(x) for x in a]))
+            if kwargs.get("strict"):
+                seqs = [self.iterate(x) for x in a]
+                if len({len(q) for q in seqs}) > 1:
+                    raise PyRaise("ValueError", node, "zip() arguments have different lengths")
+                return list(zip(*seqs))
+            return LazyGen(zip(*[self.iter_lazy(x) for x in a]))
         if name == "itertools.zip_longest":
             import itertools
             return list(itertools.zip_longest(*[self.iterate(x) for x in a], fillvalue=kwargs.get("fillvalue")))
@@ -1849,9 +1864,33 @@ class Interp:
                 keys = list(a)
                 return PyCallable(lambda i, aa, kk: i.eval(ast.Subscript(value=ast.Name(id="__o", ctx=ast.Load()), slice=ast.Name(id="__k", ctx=ast.Load()), ctx=ast.Load()), {"__o": aa[0], "__k": keys[0]}) if len(keys) == 1
                                   else tuple(i.eval(ast.Subscript(value=ast.Name(id="__o", ctx=ast.Load()), slice=ast.Name(id="__k", ctx=ast.Load()), ctx=ast.Load()), {"__o": aa[0], "__k": kx}) for kx in keys))
-            if op == "attrgetter" and len(a) == 1 and isinstance(a[0], str) and "." not in a[0]:
-                nm = a[0]
-                return PyCallable(lambda i, aa, kk: i.eval(ast.Attribute(value=ast.Name(id="__o", ctx=ast.Load()), attr=nm, ctx=ast.Load()), {"__o": aa[0]}))
+            if op == "attrgetter" and a and all(isinstance(x, str) for x in a):
+                def _ag(i, aa, kk, names=tuple(a)):
+                    def one(o, dotted):
+                        for part in dotted.split("."):
+                            o = i.getattr(o, part)
+                        return o
+                    vals = tuple(one(aa[0], nm) for nm in names)
+                    return vals[0] if len(names) == 1 else vals
+                return PyCallable(_ag)
+            if op == "methodcaller" and a and isinstance(a[0], str):
+                mname, margs, mkw = a[0], list(a[1:]), dict(kwargs)
+                return PyCallable(lambda i, aa, kk: i.call(i.getattr(aa[0], mname), list(margs), dict(mkw)))
+            if op in ("not_", "truth"):
+                t = self.decide(a[0])
+                return (not t) if op == "not_" else t
+            if op in ("is_", "is_not", "contains", "getitem", "floordiv", "mod"):
+                node_ = {"is_": lambda: ast.Compare(left=ast.Name(id="__a", ctx=ast.Load()), ops=[ast.Is()], comparators=[ast.Name(id="__b", ctx=ast.Load())]),
+                         "is_not": lambda: ast.Compare(left=ast.Name(id="__a", ctx=ast.Load()), ops=[ast.IsNot()], comparators=[ast.Name(id="__b", ctx=ast.Load())]),
+                         "contains": lambda: ast.Compare(left=ast.Name(id="__b", ctx=ast.Load()), ops=[ast.In()], comparators=[ast.Name(id="__a", ctx=ast.Load())]),
+                         "getitem": lambda: ast.Subscript(value=ast.Name(id="__a", ctx=ast.Load()), slice=ast.Name(id="__b", ctx=ast.Load()), ctx=ast.Load()),
+                         "floordiv": lambda: ast.BinOp(left=ast.Name(id="__a", ctx=ast.Load()), op=ast.FloorDiv(), right=ast.Name(id="__b", ctx=ast.Load())),
+                         "mod": lambda: ast.BinOp(left=ast.Name(id="__a", ctx=ast.Load()), op=ast.Mod(), right=ast.Name(id="__b", ctx=ast.Load()))}[op]()
+                return self.eval(node_, {"__a": a[0], "__b": a[1]})
+            if op == "abs":
+                return self.call_builtin("abs", [a[0]], {})
+            if op == "pos":
+                return a[0]
             raise Undecided(f"{name} not interpreted")
         if name in ("itertools.filterfalse", "itertools.takewhile", "itertools.dropwhile"):
             pred, items = a[0], list(self.iterate(a[1]))
@@ -1881,9 +1920,8 @@ class Interp:
             items = self.iterate(a[0])
             return list(zip(items, items[1:]))
         if name == "itertools.repeat":
-            if len(a) < 2:
-                raise Undecided("itertools.repeat without a count")
-            return [a[0]] * _idx(a[1])
+            import itertools as _it
+            return LazyGen(_it.repeat(a[0]) if len(a) < 2 else _it.repeat(a[0], _idx(a[1])))
         if name == "itertools.accumulate":
             items = self.iterate(a[0])
             out, tot = [], None
@@ -1892,13 +1930,12 @@ class Interp:
                 out.append(tot)
             return out
         if name == "itertools.chain":
-            out = []
-            for x in a:
-                out.extend(self.iterate(x))
-            return out
+            return LazyGen(item for x in a for item in self.iter_lazy(x))
+        if name == "itertools.chain.from_iterable":
+            return LazyGen(item for x in self.iter_lazy(a[0]) for item in self.iter_lazy(x))
         if name == "itertools.islice":
-            items = self.iterate(a[0])
-            return items[slice(*[None if v is None else _idx(v) for v in a[1:]])]
+            import itertools as _it
+            return LazyGen(_it.islice(self.iter_lazy(a[0]), *[None if v is None else _idx(v) for v in a[1:]]))
         if name == "iter":
             return a[0] if isinstance(a[0], IterObj) else IterObj(self.iterate(a[0]))
         if name == "next":
@@ -1925,15 +1962,15 @@ class Interp:
                 return a[1]
             raise PyRaise("StopIteration", node)
         if name == "map":
-            seqs = [self.iterate(x) for x in a[1:]]
-            return [self.call(a[0], list(xs), {}) for xs in zip(*seqs)]
+            srcs = [self.iter_lazy(x) for x in a[1:]]
+            fn_ = a[0]
+            return LazyGen(self.call(fn_, list(xs), {}) for xs in zip(*srcs))
         if name == "filter":
-            items = self.iterate(a[1])
-            if a[0] is None:
-                return [x for x in items if self.decide(self.truth(x) if hasattr(self, "truth") else x)]
-            return [x for x in items if self.decide(self.call(a[0], [x], {}))]
+            src, pred = self.iter_lazy(a[1]), a[0]
+            return LazyGen(x for x in src if self.decide(x if pred is None else self.call(pred, [x], {})))
         if name == "enumerate":
-            return list(enumerate(self.iterate(a[0]), *(a[1:])))
+            start = _idx(kwargs["start"]) if "start" in kwargs else (_idx(a[1]) if len(a) > 1 else 0)
+            return LazyGen(enumerate(self.iter_lazy(a[0]), start))
         if name == "object":
             return Rec(ClassRef("builtins", "object"), {}, mutable=True)
         if name == "callable":
@@ -1974,7 +2011,14 @@ class Interp:
         if name == "frozenset":
             return frozenset(_h(x) for x in self.iterate(a[0])) if a else frozenset()
         if name == "dict":
-            d = dict(a[0]) if a else {}
+            d = {}
+            if a:
+                if isinstance(a[0], dict):
+                    d = dict(a[0])
+                else:
+                    for pair in self.iterate(a[0]):
+                        kk, vv = self.iterate(pair) if not isinstance(pair, (tuple, list)) else pair
+                        d[_h(kk)] = vv
             d.update(kwargs)
             return d
         if name in ("min", "max"):
